@@ -1,0 +1,30 @@
+//go:build verif
+// +build verif
+
+package cpu
+
+import (
+	"os"
+	"strconv"
+)
+
+// VerifDetectedLevel is the level CPUID detection produced before any override.
+var VerifDetectedLevel int
+
+// The verification harness runs every workload in separate processes with the
+// dispatch level forced through FASTGO_VERIF_ARCHLEVEL. Package-level variable
+// initialisation (ArchLevel = cpuArchLevel()) runs before this init, and this
+// init runs before the init functions of the packages importing cpu, which is
+// where the encoders are bound.
+func init() {
+	VerifDetectedLevel = ArchLevel
+	s := os.Getenv("FASTGO_VERIF_ARCHLEVEL")
+	if s == "" {
+		return
+	}
+	n, err := strconv.Atoi(s)
+	if err != nil || n < 0 || n > 4 {
+		return
+	}
+	ArchLevel = n
+}
